@@ -1,9 +1,11 @@
 (* C05 — set operators match datapoints by identifiers across ALL operands.
-   Statements over the specification functions of Model/SetOps.v; the engine is tied to them by the correspondence
-   check (harness/props/c05.py) which evaluates `seval` on the very cases the engine ran. *)
-From Coq Require Import ZArith List Bool Permutation.
+   Statements over the specification functions of Model/SetOps.v and over the set-operator node `DSet` of the core
+   language (Model/Expr.v); the engine is tied to them by the correspondence check (harness/props/c05.py) which evaluates
+   `seval` on the very cases the engine ran, and `run_script` on set operators composed with the other operators. *)
+From Coq Require Import ZArith String List Bool Permutation.
 Import ListNotations.
-From VTL Require Import Base.Val Model.Table Model.SetOps Proofs.TableP Proofs.SetOpsP.
+From VTL Require Import Base.Val Model.Table Model.Scalar Model.SetOps Model.Expr
+     Proofs.TableP Proofs.MonadP Proofs.SetOpsP Proofs.ExprP.
 
 (* union: a datapoint is in the result iff it comes from an operand and no EARLIER operand has its key … *)
 Theorem C05_union_first_operand_wins : forall ops r,
@@ -50,6 +52,101 @@ Example C05_three_operand_intersect :
   map fst (intersect [d [1; 2; 3]%Z; d [2; 3; 4]%Z; d [3; 4; 5]%Z]) = [k 3%Z].
 Proof. vm_compute. reflexivity. Qed.
 
+(* ---------------------------------------------------------------- the set operators as a node of the core language *)
+(* n-ary union / intersect are the left-nested binary forms: union(A, B, C, …) = union(union(A, B), C) … *)
+Theorem C05_union_nary_is_left_nested : forall a rest,
+  union (a :: rest) = fold_left (fun acc d => union [acc; d]) rest a.
+Proof. exact union_left_nested. Qed.
+Theorem C05_intersect_nary_is_left_nested : forall a rest,
+  intersect (a :: rest) = fold_left (fun acc d => intersect [acc; d]) rest a.
+Proof. exact intersect_left_nested. Qed.
+
+(* … at the level of the language: the text union(A, B1, …, Bn) / intersect(A, B1, …, Bn), translated to left-nested DSet nodes
+   (dset_nary), evaluates to the n-ary function over the operands' datapoints (operands declaring the same components in the
+   same order; other declared orders go through the alignment of C05_dset_laws first) *)
+Theorem C05_nary_union_as_nested_nodes : forall e a rest da drest,
+  deval e a = Ok da -> Forall2 (fun x d => deval e x = Ok d) rest drest ->
+  nodup_s (d_ids da) = true -> nodup_s (d_ms da) = true ->
+  Forall (fun d => d_ids d = d_ids da /\ d_ms d = d_ms da /\ rows_fit (d_ids d) (d_ms d) (d_rows d)) drest ->
+  deval e (dset_nary OUnion a rest) = Ok (mkD (d_ids da) (d_ms da) (union (d_rows da :: map d_rows drest))).
+Proof. exact dset_nary_union. Qed.
+Theorem C05_nary_intersect_as_nested_nodes : forall e a rest da drest,
+  deval e a = Ok da -> Forall2 (fun x d => deval e x = Ok d) rest drest ->
+  nodup_s (d_ids da) = true -> nodup_s (d_ms da) = true ->
+  Forall (fun d => d_ids d = d_ids da /\ d_ms d = d_ms da /\ rows_fit (d_ids d) (d_ms d) (d_rows d)) drest ->
+  deval e (dset_nary OIntersect a rest) = Ok (mkD (d_ids da) (d_ms da) (intersect (d_rows da :: map d_rows drest))).
+Proof. exact dset_nary_intersect. Qed.
+
+(* DSet op a b: structure of the first operand; with B' = the datapoints of the second operand written in the column
+   order of the first (alignment by name), the result holds exactly the datapoints the law of `op` names *)
+Theorem C05_dset_laws : forall op a b r,
+  d_setop op a b = Ok r ->
+  d_ids r = d_ids a /\ d_ms r = d_ms a /\
+  exists rb, Forall2 (fun x y => align_row (d_ids b) (d_ms b) (d_ids a) (d_ms a) x = Ok y) (d_rows b) rb /\
+             forall x, In x (d_rows r) <->
+               match op with
+               | OUnion => In x (d_rows a) \/ (In x rb /\ has_key (fst x) (d_rows a) = false)
+               | OIntersect => In x (d_rows a) /\ has_key (fst x) rb = true
+               | OSetdiff => In x (d_rows a) /\ has_key (fst x) rb = false
+               | OSymdiff => (In x (d_rows a) /\ has_key (fst x) rb = false) \/ (In x rb /\ has_key (fst x) (d_rows a) = false)
+               end.
+Proof. exact d_setop_laws. Qed.
+
+(* alignment by name moves values only and never merges two datapoints *)
+Theorem C05_alignment_injective : forall from to k1 k2 k1' k2',
+  NoDup from -> List.length k1 = List.length from -> List.length k2 = List.length from ->
+  (forall n, In n from -> In n to) ->
+  proj_key from k1 to = Some k1' -> proj_key from k2 to = Some k2' ->
+  key_eqb k1' k2' = true -> key_eqb k1 k2 = true.
+Proof. exact proj_key_inj. Qed.
+Theorem C05_alignment_identity_when_same_order : forall from k,
+  NoDup from -> List.length k = List.length from -> proj_key from k from = Some k.
+Proof. exact proj_key_self. Qed.
+
+(* operands whose structures differ are a semantic error (1-1-17-1), never a value *)
+Theorem C05_dset_incompatible : forall op a b, set_compat a b = false -> d_setop op a b = Err ERR_SET_STRUCT.
+Proof. exact d_setop_incompatible. Qed.
+
+(* COMPOSITIONALITY.  Whatever operators of the core language enclose a set operator (context k: clauses, element-wise
+   operators, dataset∘dataset operators, other set operators, at any depth), the enclosing operators see exactly the dataset
+   r described by C05_dset_laws — the same as if the set operator had been computed by a statement of its own and
+   referred to by name *)
+Theorem C05_dset_in_any_context : forall k e op a b da db r n,
+  deval e a = Ok da -> deval e b = Ok db -> d_setop op da db = Ok r -> ~ In n (kvars k) ->
+  deval e (plug k (DSet op a b)) = deval ((n, r) :: e) (plug k (DVar n)).
+Proof. exact dset_in_context. Qed.
+
+(* the same for ANY sub-expression, as a statement about scripts: one nested statement = two flat statements *)
+Theorem C05_nested_statement_is_flat_script : forall k e x r n out,
+  deval e x = Ok r -> ~ In n (kvars k) -> n <> out ->
+  run_script e [(out, plug k x)] out = run_script e [(n, x); (out, plug k (DVar n))] out.
+Proof. exact nested_is_flat. Qed.
+
+Theorem C05_context_congruence : forall k e x y, deval e x = deval e y -> deval e (plug k x) = deval e (plug k y).
+Proof. exact plug_congr. Qed.
+
+(* the instance exercised by the correspondence: setdiff(A, B)[sub …] applies sub to the setdiff taken on the FULL keys *)
+Theorem C05_dset_under_sub : forall e op a b l da db r,
+  deval e a = Ok da -> deval e b = Ok db -> d_setop op da db = Ok r ->
+  deval e (DSub (DSet op a b) l) = Ok (d_sub r l).
+Proof. exact dset_under_sub. Qed.
+
+(* non-vacuity: keys that agree on the surviving identifier and differ on the removed one; columns of the second operand
+   declared in another order *)
+Example C05_setdiff_under_sub_example :
+  let A := mkD ["Id_1"; "Id_2"]%string ["Me_1"]%string
+               [([VInt 1; VStr "A"], [VInt 11]); ([VInt 1; VStr "B"], [VInt 12]); ([VInt 2; VStr "A"], [VInt 13]); ([VInt 3; VStr "A"], [VInt 14])] in
+  let B := mkD ["Id_2"; "Id_1"]%string ["Me_1"]%string
+               [([VStr "B"; VInt 1], [VInt 21]); ([VStr "B"; VInt 2], [VInt 22]); ([VStr "A"; VInt 3], [VInt 23])] in
+  let e := [("A"%string, A); ("B"%string, B)] in
+  deval e (DSub (DSet OSetdiff (DVar "A") (DVar "B")) [("Id_2"%string, VStr "A")])
+    = Ok (mkD ["Id_1"]%string ["Me_1"]%string [([VInt 1], [VInt 11]); ([VInt 2], [VInt 13])]) /\
+  deval e (DSet OUnion (DSet OIntersect (DVar "A") (DVar "B")) (DVar "B"))
+    = Ok (mkD ["Id_1"; "Id_2"]%string ["Me_1"]%string
+              [([VInt 1; VStr "B"], [VInt 12]); ([VInt 3; VStr "A"], [VInt 14]); ([VInt 2; VStr "B"], [VInt 22])]) /\
+  deval e (DSet OSymdiff (DVar "A") (DKeep (DVar "B") [])) = Err ERR_SET_STRUCT.
+Proof. vm_compute. repeat split. Qed.
+
 Print Assumptions C05_union_first_operand_wins.
 Print Assumptions C05_union_keys.
 Print Assumptions C05_union_one_per_key.
@@ -60,3 +157,15 @@ Print Assumptions C05_symdiff.
 Print Assumptions C05_symdiff_keys_exactly_one.
 Print Assumptions C05_results_wellformed.
 Print Assumptions C05_union_concat_is_union.
+Print Assumptions C05_union_nary_is_left_nested.
+Print Assumptions C05_intersect_nary_is_left_nested.
+Print Assumptions C05_nary_union_as_nested_nodes.
+Print Assumptions C05_nary_intersect_as_nested_nodes.
+Print Assumptions C05_dset_laws.
+Print Assumptions C05_alignment_injective.
+Print Assumptions C05_alignment_identity_when_same_order.
+Print Assumptions C05_dset_incompatible.
+Print Assumptions C05_dset_in_any_context.
+Print Assumptions C05_nested_statement_is_flat_script.
+Print Assumptions C05_context_congruence.
+Print Assumptions C05_dset_under_sub.
